@@ -1,7 +1,9 @@
 package main
 
 import (
+	"bytes"
 	"context"
+	"errors"
 	"fmt"
 	"net/http"
 	"net/http/httptest"
@@ -302,6 +304,68 @@ func specReuseProbe(c *Ctx) {
 	}
 }
 
+// recoverSpecProbe (F21): the recovery function is user code too; it is documented to receive
+// the call's Spec and request headers, and it must get them for every RPC kind - not only for
+// unary handlers.
+func recoverSpecProbe(c *Ctx) {
+	for _, proto := range []string{"connect", "grpc", "grpcweb"} {
+		for _, kind := range []string{"unary", "client", "server", "bidi"} {
+			var gotSpec connect.Spec
+			var gotTag string
+			calls := 0
+			rec := connect.WithRecover(func(ctx context.Context, spec connect.Spec, h http.Header, v any) error {
+				calls++
+				gotSpec = spec
+				if h != nil {
+					gotTag = h.Get("X-Probe-Tag")
+				}
+				return connect.NewError(connect.CodeAborted, errors.New("recovered"))
+			})
+			opts := []connect.HandlerOption{connect.WithCodec(rawCodec{"raw"}), rec}
+			procedure := "/acme.v1.Svc/Boom"
+			var h *connect.Handler
+			var want connect.StreamType
+			switch kind {
+			case "unary":
+				want = connect.StreamTypeUnary
+				h = connect.NewUnaryHandler(procedure, func(ctx context.Context, r *connect.Request[[]byte]) (*connect.Response[[]byte], error) {
+					panic("boom")
+				}, opts...)
+			case "client":
+				want = connect.StreamTypeClient
+				h = connect.NewClientStreamHandler(procedure, func(ctx context.Context, s *connect.ClientStream[[]byte]) (*connect.Response[[]byte], error) {
+					panic("boom")
+				}, opts...)
+			case "server":
+				want = connect.StreamTypeServer
+				h = connect.NewServerStreamHandler(procedure, func(ctx context.Context, r *connect.Request[[]byte], s *connect.ServerStream[[]byte]) error {
+					panic("boom")
+				}, opts...)
+			default:
+				want = connect.StreamTypeBidi
+				h = connect.NewBidiStreamHandler(procedure, func(ctx context.Context, s *connect.BidiStream[[]byte, []byte]) error { panic("boom") }, opts...)
+			}
+			body := []byte{1}
+			if !(proto == "connect" && kind == "unary") {
+				body = frame(0, body)
+			}
+			req := httptest.NewRequest(http.MethodPost, procedure, bytes.NewReader(body))
+			req.ProtoMajor, req.ProtoMinor, req.Proto = 2, 0, "HTTP/2.0"
+			req.Header.Set("Content-Type", ctFor(proto, kind, "raw"))
+			req.Header.Set("X-Probe-Tag", "t-"+kind)
+			got := safely(func() string {
+				h.ServeHTTP(httptest.NewRecorder(), req)
+				return fmt.Sprintf("calls=%d procedure=%q type=%v isClient=%v tag=%q", calls, gotSpec.Procedure, gotSpec.StreamType, gotSpec.IsClient, gotTag)
+			})
+			c.Count("recover-spec-probe")
+			wantS := fmt.Sprintf("calls=1 procedure=%q type=%v isClient=false tag=%q", procedure, want, "t-"+kind)
+			if got != wantS {
+				c.Fail("disp-recover-spec", fmt.Sprintf("%s %s handler built for %s with WithRecover; user code panics", proto, kind, procedure), got, "the recovery function must observe the Spec the handler was built with and the request's headers: "+wantS)
+			}
+		}
+	}
+}
+
 func streamDisp(c *Ctx) {
 	if replayOp != "" {
 		if strings.HasPrefix(replayOp, "disp") {
@@ -312,6 +376,7 @@ func streamDisp(c *Ctx) {
 		return
 	}
 	specReuseProbe(c)
+	recoverSpecProbe(c)
 	doneContextChainProbe(c, "disp-once")
 	r := c.Rng
 	kinds := []string{"unary", "client", "server", "bidi"}
